@@ -8,7 +8,7 @@ import numpy as np
 
 
 def wcs_simple(rot_deg=0.0, cdelt=1e-3, proj='TAN', ctype=('RA', 'DEC'), crval=(40.0, 20.0), crpix=(50.0, 60.0), flip=False,
-               radesys=None, equinox=None, encoding='cdelt_pc', lat_first=False):
+               radesys=None, equinox=None, encoding='cdelt_pc', lat_first=False, aniso=1.0):
     """A celestial WCS: projection, rotation (PC matrix), scale, parity, axis types, reference value.  ``encoding``:
     how the same linear transformation is written into the header -- 'cdelt_pc' (CDELT = (-s, s), PC = rotation), 'cd' (a CD
     matrix, no CDELT), 'pc_flip' (CDELT = (s, s), the sign of the longitude axis inside the PC matrix).  ``lat_first``: the latitude is the
@@ -37,7 +37,7 @@ def wcs_simple(rot_deg=0.0, cdelt=1e-3, proj='TAN', ctype=('RA', 'DEC'), crval=(
         w.wcs.cdelt = [cdelt, cdelt]
         w.wcs.pc = [[sg * pc[0][0], sg * pc[0][1]], pc[1]]
     elif encoding != 'done':
-        w.wcs.cdelt = [sx, cdelt]
+        w.wcs.cdelt = [sx, cdelt * aniso]       # aniso != 1: oblong pixels (different scales along the two pixel axes)
         w.wcs.pc = pc
     if radesys:
         w.wcs.radesys = radesys
